@@ -151,7 +151,10 @@ func c06Run(c *core.Ctx) *core.Result {
 	case "synthetic":
 		o.SymXattrs = false
 		t := tree.Gen(R, o)
-		fs = newSynthFS(t)
+		sfs := newSynthFS(t)
+		sfs.EOFWithData = R.P(1, 2)
+		sfs.ChunkMax = core.Pick(R, []int{0, 0, 1000, 32768})
+		fs = sfs
 		want = t.Entries
 		for _, e := range t.Entries {
 			if e.Type == tree.File {
@@ -161,6 +164,7 @@ func c06Run(c *core.Ctx) *core.Result {
 	case "fanout":
 		t := fanoutTree(R, R.Range(150, 400))
 		sf := newSynthFS(t)
+		sf.EOFWithData = R.P(1, 2)
 		if R.P(1, 2) {
 			sf.ChunkMax = core.Pick(R, []int{1000, 5000, 32768})
 		}
